@@ -3878,19 +3878,17 @@ impl GlobalInferenceCtx<'_> {
                     return Ok(Err(ArgsContainDiagnostics));
                 }
 
-                let res = self
+                let Some(res) = self
                     .const_data(self.loc, *arg)
                     // the only reason const_data would return an Err
                     // is because of is_safe_to_compile, but we already called
                     // all of them.
                     .expect("is_safe_to_compile was done beforehand")
-                    .unwrap_or_else(|| {
-                        panic!(
-                            "@{} expr #{} didn't work",
-                            self.loc.debug(self.interner),
-                            arg.into_raw()
-                        )
-                    });
+                else {
+                    // the argument is a comptime block (or refers to one) that could not be
+                    // evaluated because it contains errors, which have been reported already
+                    return Ok(Err(ArgsContainDiagnostics));
+                };
                 let res = self.generics_arena.alloc(res);
 
                 self.inline_comptime_args.push(res);
@@ -4743,6 +4741,10 @@ impl GlobalInferenceCtx<'_> {
                                     Some(ComptimeResult::Integer { num, .. }) => {
                                         Ty::ConcreteArray { size: num, sub_ty }.into()
                                     }
+                                    // the size is a comptime block (or refers to one) that
+                                    // could not be evaluated because it contains errors,
+                                    // which have been reported already
+                                    None => Ty::Unknown.into(),
                                     actual_data => {
                                         panic!(
                                             "{} #{} already checked that the constant was an integer, and yet the data is {actual_data:?}",
@@ -4856,6 +4858,9 @@ impl GlobalInferenceCtx<'_> {
                                                     manual_discriminants.insert(idx, num);
                                                 }
                                             }
+                                            // a comptime block that contains (already reported)
+                                            // errors has no value
+                                            None => {}
                                             _ => unreachable!(),
                                         }
                                     }
